@@ -24,7 +24,7 @@ def run(chk, tier):
 
 
 def r_guards(chk, P, tier):
-    chk.rule("SIB.guards", "duration_round / _trunc / _round_up share the guard prefix and the error classification", floor=15)
+    chk.rule("SIB.guards", "duration_round / _trunc / _round_up share the guard prefix and the error classification", floor=18)
     for fn in FNS:
         errs = []
         oks = 0
@@ -38,7 +38,7 @@ def r_guards(chk, P, tier):
                 # `expr.ok_or(RoundingError::X)?` : the error is X, decided by the Option that ok_or was applied to
                 oks_ = [x for x in walk_terms(p.ret) if is_call(x, suffix="Option::<T>::ok_or") and x[2][1][0] == "agg"]
                 if oks_:
-                    errs.append((oks_[0][2][1][3], [pp(oks_[0][2][0])[:400]] + [pp(c[1])[:400] for c in sw]))
+                    errs.append((oks_[0][2][1][3], [pp(oks_[0][2][0])[:400]] + [pp(c[1])[:400] for c in sw], oks_[0][2][0]))
                     continue
                 # the residual of an inlined helper's explicit `return Err(RoundingError::X)`
                 direct = [x for x in walk_terms(p.ret) if x[0] == "agg" and x[1] == "adt" and x[2] == "round::RoundingError"]
@@ -63,6 +63,21 @@ def r_guards(chk, P, tier):
                     if is_call(x, suffix="Option::<T>::ok_or") and is_call(x[2][0], suffix="timestamp_nanos_opt") and x[2][1][0] == "agg" and x[2][1][3] == "TimestampExceedsLimit":
                         tl = True
         chk.expect(tl, fn + ": TimestampExceedsLimit", "%s does not map a missing nanosecond timestamp to TimestampExceedsLimit" % fn, loc=P.loc(fn))
+        # ... and from nothing else: each TimestampExceedsLimit result is the ok_or of timestamp_nanos_opt itself, or an explicit Err whose deciding (last) test
+        # is on timestamp_nanos_opt (the error is reported exactly for date-times whose nanosecond timestamp does not fit)
+        other = []
+        for e in errs:
+            if e[0] != "TimestampExceedsLimit":
+                continue
+            if len(e) > 2:
+                src = e[2]
+                while src[0] in ("ref", "deref"):
+                    src = src[1]
+                if not is_call(src, suffix="timestamp_nanos_opt"):
+                    other.append(pp(src)[:120])
+            elif not (len(e[1]) and "timestamp_nanos_opt" in e[1][-1]):
+                other.append(e[1][-1][:120] if e[1] else "unconditional")
+        chk.expect(not other, fn + ": TimestampExceedsLimit only from the timestamp", "%s reports TimestampExceedsLimit from %s (expected: only when timestamp_nanos_opt() is None)" % (fn, other), loc=P.loc(fn))
         # the span that is classified is the caller's span, unmodified (no clamping / normalising before the test)
         recv = set()
         for p in Sym(P, fn).paths():
